@@ -36,7 +36,7 @@ VAL = {
                 ('intmin-mod', '(0-2147483647-1)%(0-1)'), ('index-range', 'Arr[5]')],
 }
 VAL_MORE = {   # thorough tier only
-    'lua': [('mod-zero', '1%0'), ('concat-table', '{}..1'), ('call-nil', 'nosuchfn()'), ('index-nil', 'nosuch.field'),
+    'lua': [('mod-zero', '1%0'), ('concat-table', '({}..1)'), ('call-nil', 'nosuchfn()'), ('index-nil', 'nosuch.field'),
             ('error-bool', 'error(false)'), ('error-level', 'error("x",0)')],
     'promela': [('neg-index', 'Arr[0-1]'), ('nested-div', '1+(2/(1-1))')],
 }
